@@ -52,7 +52,35 @@ impl<K: View, V: View> Default for IndexMap<K, V> {
     { unimplemented!() }
 }
 
+pub open spec fn m_get<K, V>(s: Seq<(K, V)>, k: K) -> Option<V> {
+    if m_has(s, k) { Some(s[m_idx(s, k)].1) } else { None }
+}
 impl<K: View, V: View> IndexMap<K, V> {
+    /// map.rs `new`: the empty map
+    #[verifier::external_body]
+    pub fn new() -> (r: Self)
+        ensures r@.len() == 0,
+    { unimplemented!() }
+    /// map.rs `len`: number of entries
+    #[verifier::external_body]
+    pub fn len(&self) -> (r: usize)
+        ensures r == self@.len(),
+    { unimplemented!() }
+    /// map.rs `is_empty`
+    #[verifier::external_body]
+    pub fn is_empty(&self) -> (r: bool)
+        ensures r == (self@.len() == 0),
+    { unimplemented!() }
+    /// map.rs `contains_key`
+    #[verifier::external_body]
+    pub fn contains_key(&self, key: &K) -> (r: bool)
+        ensures r == m_has(self@, key@),
+    { unimplemented!() }
+    /// map.rs:834 `get`: "Return a reference to the stored value for key, if it is present, else None."
+    #[verifier::external_body]
+    pub fn get(&self, key: &K) -> (r: Option<&V>)
+        ensures r is Some <==> m_has(self@, key@), r is Some ==> Some(r->Some_0@) == m_get(self@, key@),
+    { unimplemented!() }
     /// map.rs:446 `insert` -> core.rs `insert_full`: "If an equivalent key
     /// already exists in the map: the key remains and retains in its place in
     /// the order, its corresponding value is updated with `value`, and the
